@@ -167,7 +167,7 @@ def execute(plan: dict) -> dict:
             return
         st['loss_done'] = True
         st['loss_at'] = w.loop.mono
-        probes[f'loss:{kind}'] += 1
+        probes[f'loss:{note or kind}' if f'loss:{note}' in probes else f'loss:{kind}'] += 1
         if w.live_generators > 0 or any(p.neighbor.rib.outgoing.pending() for p in w.reactor._peers.values()):
             probes['loss_with_generator_alive'] += 1
         if blocked():
